@@ -1,3 +1,4 @@
+import Model.PyStr
 /-
   Py — the run-time prelude of the source translator (tools/py2lean.py).
 
@@ -120,6 +121,30 @@ def not_ (a : V) : V :=
   match a with
   | .exc n => .exc n
   | a => .bool (!truthy a)
+
+/-- `s.strip()` (CPython's whitespace table, `Model.PyStr`) -/
+def strip_ (a : V) : V :=
+  match a with
+  | .exc n => .exc n
+  | .str s => .str (Model.PyStr.strip s)
+  | .none => .exc "AttributeError"
+  | _ => .exc "AttributeError"
+
+/-- index of the first occurrence of `xs` in `ys`, from position `i` -/
+def findFrom (xs : List Char) : List Char → Nat → Option Nat
+  | [], i => if xs.isEmpty then some i else Option.none
+  | y :: ys, i => if xs.isPrefixOf (y :: ys) then some i else findFrom xs ys (i + 1)
+
+/-- `s.find(sub)` -/
+def find_ (a b : V) : V :=
+  match a, b with
+  | .exc n, _ => .exc n
+  | _, .exc n => .exc n
+  | .str s, .str t => match findFrom t.toList s.toList 0 with
+    | some i => .int i
+    | Option.none => .int (-1)
+  | .str _, _ => .exc "TypeError"
+  | _, _ => .exc "AttributeError"
 
 /-- `bool(a)` -/
 def bool_ (a : V) : V :=
